@@ -34,7 +34,7 @@ theorem accept_then_dial_succeeds (P : Params) (hP : P.Good) (s : State) (n : Na
     ∃ s', runFrom P s [.accept n, .runRecv, .runPark, .dial n, .dialTake s.nDials] = some s' ∧
       (s'.dials s.nDials).map (·.pc) = some (.dialled s.nListeners) ∧
       s'.listeners s.nListeners = some ⟨n⟩ := by
-  obtain ⟨h1, h2, _⟩ := hP
+  obtain ⟨h1, h2, _, _, _⟩ := hP
   simp [runFrom, step, getStream, upd, hfresh, hrun, hw, h1, h2]
 
 /-- **Dial first, accept within the window**: same outcome. -/
@@ -43,7 +43,7 @@ theorem dial_then_accept_succeeds (P : Params) (hP : P.Good) (s : State) (n : Na
     ∃ s', runFrom P s [.dial n, .accept n, .runRecv, .runPark, .dialTake s.nDials] = some s' ∧
       (s'.dials s.nDials).map (·.pc) = some (.dialled s.nListeners) ∧
       s'.listeners s.nListeners = some ⟨n⟩ := by
-  obtain ⟨h1, h2, _⟩ := hP
+  obtain ⟨h1, h2, _, _, _⟩ := hP
   simp [runFrom, step, getStream, upd, hfresh, hrun, hw, h1, h2]
 
 /-- A dial whose peer never accepts returns (an error) once its window has passed: the
@@ -53,26 +53,114 @@ theorem unmatched_dial_times_out (P : Params) (s : State) (g : Nat) (d : Dial)
     (step P s (.dialTimeout g)).isSome := by
   simp [step, hd, hpc, hdl]
 
-/-! ### Witnesses: the two structural facts are needed -/
+/-! ### Witnesses: the structural facts are needed -/
+
+/-- **`Run` is never blocked**: with the non-blocking hand-off no history — duplicate accepts on one id,
+accepts nobody dials — can stop the loop that files conn-info, so accept/dial pairs on fresh ids keep working. -/
+theorem run_never_blocked (P : Params) (hP : P.Good) (s : State) (h : Reachable P s) :
+    ∀ k m, s.run ≠ .blocked k m := by
+  obtain ⟨_, _, hN, _, _⟩ := hP
+  refine reachable_induction (Inv := fun s => ∀ k m, s.run ≠ .blocked k m) (by simp [init]) ?_ s h
+  intro s e s' hi hs
+  have gs : ∀ (s0 : State) id, (getStream s0 id).1.run = s0.run := by
+    intro s0 id; unfold getStream; split <;> rfl
+  have gss : ∀ (s0 : State) id, (getServerStream s0 id).1.run = s0.run := by
+    intro s0 id; unfold getServerStream; split <;> rfl
+  cases e with
+  | accept id => simp only [step, Option.some.injEq] at hs; subst hs; exact hi
+  | tick d => simp only [step, Option.some.injEq] at hs; subst hs; exact hi
+  | runRecv =>
+    simp only [step] at hs
+    split at hs
+    · simp only [Option.some.injEq] at hs; subst hs; intro k m; simp
+    · simp at hs
+  | runPark =>
+    simp only [step, hN, if_true] at hs
+    split at hs
+    · split at hs
+      · split at hs <;> (simp only [Option.some.injEq] at hs; subst hs; intro k m; simp)
+      · simp at hs
+    · simp at hs
+  | runUnblock =>
+    simp only [step] at hs
+    first
+    | (simp at hs; done)
+    | (split at hs
+       · next k m hr => exact absurd hr (hi k m)
+       · simp at hs)
+  | dial id =>
+    simp only [step, Option.some.injEq] at hs; subst hs
+    intro k m; simp only [gs]; exact hi k m
+  | dialRacy id =>
+    simp [step, ‹P.getStreamAtomic = true›] at hs
+  | dialTake g =>
+    simp only [step] at hs
+    split at hs
+    · split at hs
+      · split at hs
+        · split at hs <;> (simp only [Option.some.injEq] at hs; subst hs; exact hi)
+        · simp at hs
+      · simp at hs
+    · simp at hs
+  | dialTimeout g =>
+    simp only [step] at hs
+    split at hs
+    · split at hs
+      · simp only [Option.some.injEq] at hs; subst hs; exact hi
+      · simp at hs
+    · simp at hs
+  | twWake t =>
+    simp only [step] at hs
+    split at hs
+    · split at hs
+      · split at hs
+        · simp only [Option.some.injEq] at hs; subst hs; exact hi
+        · simp at hs
+      · simp at hs
+    · simp at hs
+  | twFinish t =>
+    simp only [step] at hs
+    split at hs
+    · split at hs
+      · simp only [Option.some.injEq] at hs; subst hs; exact hi
+      · simp at hs
+    · simp at hs
 
 /-- If the dial ignored the received address (here: dialled a fixed one), Dial(6) would reach the
 listener accepted for id 5. -/
 theorem wrong_addr_witness :
-    ∃ s, runFrom ⟨true, false, 1, 5000, 5000⟩ init [.accept 5, .accept 6, .runRecv, .runPark, .runRecv, .runPark, .dial 6, .dialTake 0] = some s ∧
+    ∃ s, runFrom ⟨true, false, true, true, 1, 5000, 5000⟩ init [.accept 5, .accept 6, .runRecv, .runPark, .runRecv, .runPark, .dial 6, .dialTake 0] = some s ∧
       (s.dials 0).map (·.pc) = some (.dialled 0) ∧ s.listeners 0 = some ⟨5⟩ := by
-  refine ⟨(runFrom ⟨true, false, 1, 5000, 5000⟩ init [.accept 5, .accept 6, .runRecv, .runPark, .runRecv, .runPark, .dial 6, .dialTake 0]).get (by decide),
+  refine ⟨(runFrom ⟨true, false, true, true, 1, 5000, 5000⟩ init [.accept 5, .accept 6, .runRecv, .runPark, .runRecv, .runPark, .dial 6, .dialTake 0]).get (by decide),
     by simp, by decide, by decide⟩
 
 /-- If `Run` filed conn-info under `serverStreams`, a matched Accept(5)/Dial(5) pair would never
 connect: the dial cannot receive and can only time out. -/
 theorem wrong_map_witness :
-    ∃ s, runFrom ⟨false, true, 1, 5000, 5000⟩ init [.accept 5, .runRecv, .runPark, .dial 5] = some s ∧
-      step ⟨false, true, 1, 5000, 5000⟩ s (.dialTake 0) = none := by
-  refine ⟨(runFrom ⟨false, true, 1, 5000, 5000⟩ init [.accept 5, .runRecv, .runPark, .dial 5]).get (by decide), by simp, by decide⟩
+    ∃ s, runFrom ⟨false, true, true, true, 1, 5000, 5000⟩ init [.accept 5, .runRecv, .runPark, .dial 5] = some s ∧
+      step ⟨false, true, true, true, 1, 5000, 5000⟩ s (.dialTake 0) = none := by
+  refine ⟨(runFrom ⟨false, true, true, true, 1, 5000, 5000⟩ init [.accept 5, .runRecv, .runPark, .dial 5]).get (by decide), by simp, by decide⟩
+
+
+/-- With a blocking hand-off, two accepts on one id that nobody dials stop `Run` for good: a later matched
+Accept(6)/Dial(6) never connects (the former shape of a seeded change). -/
+theorem blocking_send_witness :
+    ∃ s, runFrom ⟨true, true, false, true, 1, 5000, 5000⟩ init [.accept 5, .accept 5, .runRecv, .runPark, .runRecv, .runPark, .accept 6, .dial 6] = some s ∧
+      s.run = .blocked 0 ⟨5, 1⟩ ∧ step ⟨true, true, false, true, 1, 5000, 5000⟩ s .runRecv = none ∧
+      step ⟨true, true, false, true, 1, 5000, 5000⟩ s (.dialTake 0) = none := by
+  refine ⟨(runFrom ⟨true, true, false, true, 1, 5000, 5000⟩ init [.accept 5, .accept 5, .runRecv, .runPark, .runRecv, .runPark, .accept 6, .dial 6]).get (by decide),
+    by simp, by decide, by decide, by decide⟩
+
+/-- If `getClientStream` looks up and inserts in different critical sections, a Dial racing with the arriving
+conn-info ends up waiting on an entry of its own: simultaneous Accept(5)/Dial(5) time out. -/
+theorem racy_getstream_witness :
+    ∃ s, runFrom ⟨true, true, true, false, 1, 5000, 5000⟩ init [.accept 5, .runRecv, .dialRacy 5, .runPark] = some s ∧
+      step ⟨true, true, true, false, 1, 5000, 5000⟩ s (.dialTake 0) = none := by
+  refine ⟨(runFrom ⟨true, true, true, false, 1, 5000, 5000⟩ init [.accept 5, .runRecv, .dialRacy 5, .runPark]).get (by decide), by simp, by decide⟩
 
 /-! ### Non-vacuity -/
 
-def pGood : Params := ⟨true, true, 1, 5000, 5000⟩
+def pGood : Params := ⟨true, true, true, true, 1, 5000, 5000⟩
 
 /-- three ids outstanding, one duplicate accept, one expired: Dial(2) still reaches listener 1 (accepted for 2) -/
 example : ∃ s, runFrom pGood init
